@@ -558,7 +558,7 @@ def run(tier):
     chk.coverage = {
         'evaluations': len(cases),
         'distinct_nontrivial': len(nontrivial),
-        'rule': 'each case = (value, indent); value_json + a real script (jsonStringify, jsonParse) on the implementation; non-trivial = '
+        'rule': '+ round 7: strings and keys whose content is number text followed by a delimiter; join keys that agree in their first 12 digits; each case = (value, indent); value_json + a real script (jsonStringify, jsonParse) on the implementation; non-trivial = '
                 'distinct (indent, text) whose value is a container with text > 12 chars or a string containing one of . , ] } " \\',
         'exhaustive': True,
         'exhaustive_part': 'every string of length <= 4 over {a . 0 , ] }} (1555) as value, as key of {s: 1.0} and in [s, 2.0, s]; '
